@@ -61,7 +61,11 @@ func runObligations(fts []*FT, dir string, timeoutS int, filter func(*Obl) bool,
 			if filter != nil && !filter(o) {
 				continue
 			}
-			jobs = append(jobs, job{ft, o, ft.BuildQuery(o, axs), axs})
+			q := ft.BuildQuery(o, axs)
+			if d := os.Getenv("PVC_DUMPOBL"); d != "" && strings.Contains(o.Name, d) {
+				os.WriteFile("/tmp/dump_"+mangle(shortKey(o.Name))+".smt2", []byte(q), 0o644)
+			}
+			jobs = append(jobs, job{ft, o, q, axs})
 		}
 	}
 	out := make([]oblResult, len(jobs))
@@ -91,6 +95,17 @@ func runObligations(fts []*FT, dir string, timeoutS int, filter func(*Obl) bool,
 				}
 				r2.Secs += r.Secs
 				r = r2
+				if r.Status != "unsat" {
+					// stage 3: other seeds/configurations on the sliced query
+					r3 := solveWith(seedSolvers, j.q, dir, j.o.Name+"_seeds", timeoutS, false)
+					for k, v := range r.All {
+						r3.All[k] = v
+					}
+					r3.Secs += r.Secs
+					if r3.Status == "unsat" || r.Status != "sat" {
+						r = r3
+					}
+				}
 			}
 			out[i] = oblResult{j.o, r, j.ft}
 		}(i, j)
